@@ -16,14 +16,14 @@ text = "\n".join(f"{k}: {v}" for k, v in prop.items())
 d = f'/tmp/seed{rnd}-{pid}' if rnd != "1" else f'/tmp/seed-{pid}'
 avoid = {
  "C01": ["LcCobTrait::inv", "TngComplex::connect_edges", "TngComplex::contains_base_pt", "TngComplex::connect_edges / RowWorker::init (again)"], "C02": ["contains_base_pt", "Link::crossing_signs", "BitSeq::weight", "CobComp::part_eval"],
- "C03": ["diag_normalize_step in snf.rs", "LcCob::inv", "HomologyCalc::trans"], "C04": ["Link::crossing_signs", "jones_polynomial", "KhComplex::q_range", "KhComplex::deg_shift_for"],
+ "C03": ["diag_normalize_step in snf.rs", "LcCob::inv", "HomologyCalc::trans", "HomologyCalc::result"], "C04": ["Link::crossing_signs", "jones_polynomial", "KhComplex::q_range", "KhComplex::deg_shift_for"],
  "C05": ["part_eval", "LcCob::inv", "LcCob::is_invertible", "Cob::stack_comps"], "C06": ["BuildElem::eliminate", "LcCob::inv", "TngComplex::contains_base_pt", "TngComplexBuilder::make_canon_cycles"],
- "C07": ["the collection of torsion orders in the homology calculator", "diag_normalize_step in snf.rs", "SnfCalc::mul_row"],
- "C08": ["ChainReducer::update_vecs", "RowWorker::init in pivot.rs", "RowWorker::update_diff"], "C09": ["diag_normalize_step", "SnfCalc::eliminate_step", "SnfCalc::mul_row"],
+ "C07": ["the collection of torsion orders in the homology calculator", "diag_normalize_step in snf.rs", "SnfCalc::mul_row", "SnfCalc::diag_normalize"],
+ "C08": ["ChainReducer::update_vecs", "RowWorker::init in pivot.rs", "RowWorker::update_diff", "PivotFinder::find_cycle_free_pivots_in (isolated-row fast path)"], "C09": ["diag_normalize_step", "SnfCalc::eliminate_step", "SnfCalc::mul_row"],
  "C10": ["the size-reduction loop of plain LLL", "normalizing_unit of the Eisenstein integers", "div_round in int_ext.rs"],
  "C11": ["RowWorker::init", "RowWorker::traverse", "PivotFinder::find_cycle_free_pivots_in", "PivotFinder::find_cycle_free_pivots_m (progress report)"], "C12": ["group_cols / UnionFind", "_solve_triangular", "Schur::compute_schur", "collect_diag in triang.rs"],
- "C13": ["SpMat::extend_cols", "Trans::sub", "SpVec::stack_vecs"], "C14": ["Ratio::reduce", "negation of FF<p>", "Ord::cmp for Ratio"],
- "C15": ["div_round", "divides for QuadInt", "the generic EucRing::gcdx"], "C16": ["Lc::map_coeffs / into_map_coeffs", "MultiDeg::cmp_lex", "PolyBase::is_const"],
+ "C13": ["SpMat::extend_cols", "Trans::sub", "SpVec::stack_vecs", "Trans::append"], "C14": ["Ratio::reduce", "negation of FF<p>", "Ord::cmp for Ratio", "Mul for QuadInt"],
+ "C15": ["div_round", "divides for QuadInt", "the generic EucRing::gcdx"], "C16": ["Lc::map_coeffs / into_map_coeffs", "MultiDeg::cmp_lex", "PolyBase::is_const", "MultiDeg::add_assign"],
  "C17": ["BitSeq::weight", "BitSeq::remove", "BitSeq::insert"], "C18": ["Link::crossing_signs", "Braid::closure / Braid::reduce", "Link::resolved_by", "Link::crossing_index"],
  "C19": ["SymTngBuilder::build_from_half", "SymTngBuilder::off_axis_crossings", "SymTngBuilder::finalize", "SymTngBuilder::deloop_off_axis"],
  "C20": ["the handling of --mirror", "the (coefficient type, variables) dispatch table", "parse_pair in helper.rs", "make_rmod_str in yui-homology/src/misc/format.rs"],
